@@ -527,7 +527,63 @@ def make_math():
 # ---------------------------------------------------------------------------------------
 
 
+class _FloatMeta(type):
+    def __instancecheck__(cls, obj):
+        return builtins.isinstance(obj, float)
+
+    def __subclasscheck__(cls, sub):
+        return issubclass(sub, float)
+
+
+class sym_float(metaclass=_FloatMeta):
+    """stands in for the builtin `float` inside shimmed modules: float(x) of a symbolic value is the
+    value itself (reals are exact); isinstance(x, float) keeps working."""
+
+    def __new__(cls, x=0.0):
+        if builtins.isinstance(x, SymArray):
+            x = x.item()
+        if builtins.isinstance(x, SymNum):
+            if x.im is not None:
+                raise TypeError("float() of complex")
+            return x
+        if builtins.isinstance(x, SymBool):
+            return x._num()
+        return float(x)
+
+
+class _IntMeta(type):
+    def __instancecheck__(cls, obj):
+        return builtins.isinstance(obj, int)
+
+    def __subclasscheck__(cls, sub):
+        return issubclass(sub, int)
+
+
+class sym_int(metaclass=_IntMeta):
+    """stands in for the builtin `int`: int(x) of a symbolic real truncates toward zero"""
+
+    def __new__(cls, x=0, *a):
+        if builtins.isinstance(x, SymArray):
+            x = x.item()
+        if builtins.isinstance(x, SymNum):
+            if x.is_int:
+                return x
+            return A._trunc(x)
+        if builtins.isinstance(x, SymBool):
+            return x._num()
+        return int(x, *a)
+
+
+def _unshim_class(c):
+    if c is sym_float:
+        return float
+    if c is sym_int:
+        return int
+    return c
+
+
 def sym_isinstance(obj, cls):
+    cls = tuple(_unshim_class(c) for c in cls) if builtins.isinstance(cls, tuple) else _unshim_class(cls)
     if builtins.isinstance(obj, SymNum):
         classes = cls if builtins.isinstance(cls, tuple) else (cls,)
         for c in classes:
@@ -561,11 +617,11 @@ def shim_objects():
     if _JAX[0] is None:
         _JAX[0] = make_jax()
         _MATH[0] = make_math()
-    return {"jnp": make_jnp_cached(), "jax": _JAX[0], "math": _MATH[0], "isinstance": sym_isinstance}
+    return {"jnp": make_jnp_cached(), "jax": _JAX[0], "math": _MATH[0], "isinstance": sym_isinstance, "float": sym_float, "int": sym_int}
 
 
 @contextlib.contextmanager
-def patched(module_names, extra=None, names=("jnp", "jax", "math", "isinstance")):
+def patched(module_names, extra=None, names=("jnp", "jax", "math", "isinstance", "float")):
     """Rebind shimmed globals in the given repository modules (by dotted name)."""
     import importlib
 
@@ -575,7 +631,7 @@ def patched(module_names, extra=None, names=("jnp", "jax", "math", "isinstance")
         for mn in module_names:
             mod = importlib.import_module(mn) if isinstance(mn, str) else mn
             for nm in names:
-                if nm == "isinstance" or nm in mod.__dict__:
+                if nm in ("isinstance", "float", "int") or nm in mod.__dict__:
                     had = nm in mod.__dict__
                     saved.append((mod, nm, had, mod.__dict__.get(nm)))
                     mod.__dict__[nm] = shims[nm]
